@@ -3,6 +3,7 @@
 
 pub mod common;
 pub mod drivers;
+pub mod fuzz;
 pub mod known;
 pub mod plan;
 pub mod typematrix;
